@@ -1036,6 +1036,11 @@ func (z *Decimal) SetFloat(x *big.Float) *Decimal {
 		z.form = inf
 		return z
 	}
+	if x.Sign() == 0 {
+		// keep the sign of ±0
+		z.form = zero
+		return z
+	}
 
 	// TODO(db47h): the conversion is somewhat contrieved, but we don't have
 	// access to x's mantissa. The conversion algorithm is also naive. Cmparing
